@@ -55,6 +55,9 @@ Inductive ikind :=
 | IOneof (name : bytes)
 | IEnum (name : bytes).
 
+(* a field of an inline (anonymous) object / an option of an inline oneof: simple types only *)
+Record sfield := mkSF { sf_name : bytes; sf_kind : ikind; sf_required : bool; sf_optional : bool }.
+
 Inductive fkind :=
 | KScalar (ptype : N) (j5kind : bytes)
 | KObject (name : bytes)                  (* object:<Name>, a reference to a schema of this package *)
@@ -66,7 +69,12 @@ Inductive fkind :=
   (* a message of another (always imported) package: timestamp -> google.protobuf.Timestamp,
      date -> j5.types.date.v1.Date, decimal -> j5.types.decimal.v1.Decimal, any -> j5.types.any.v1.Any *)
 | KArray (item : ikind)                   (* array:<item>: a repeated field *)
-| KMap (value : ikind).                   (* map:<value>: a repeated field of a nested <Name>Entry message *)
+| KMap (value : ikind)                    (* map:<value>: a repeated field of a nested <Name>Entry message *)
+(* inline (anonymous) schemas: `field x object { ... }` / `oneof { ... }` / `enum { ... }` define a type
+   nested in the containing message, named ToCamel(field name) *)
+| KInlineObject (fields : list sfield)
+| KInlineOneof (options : list sfield)
+| KInlineEnum (options : list bytes).
 
 Record ufield := mkU { uf_name : bytes; uf_kind : fkind; uf_required : bool; uf_optional : bool }.
 (* a schema declared inside the entity block (entity.Schemas: object / oneof / enum) *)
@@ -108,15 +116,21 @@ Inductive otype :=
 | TOneof (pkg name : bytes)
 | TEnum (pkg name : bytes)
 | TExt (type_name : bytes) (j5kind : bytes)   (* a message type given by its full name *)
-| TMap (value : otype).             (* map<string, value>: the field refers to its own entry message *)
+| TMap (value : otype)              (* map<string, value>: the field refers to its own entry message *)
+| TNested (name : bytes) (kind : N). (* a type nested in the containing message: 0 object 1 oneof 2 enum *)
 
 (* a property; its field number is its 1-based position (mapProperties) *)
-Record ofield := mkF10 {
+(* the definition an inline field carries: kind (as TNested), fields / options, enum options *)
+Record inline_def := mkInl { il_kind : N; il_fields : list sfield; il_options : list bytes }.
+
+Record ofield := mkF11 {
   f_json : bytes; f_type : otype; f_repeated : bool; f_required : bool; f_flatten : bool;
   f_primary : bool; f_tenant : option bytes;
   f_filter : option (list bytes);     (* list filtering: Some defaults = filterable *)
   f_foreign : option (bytes * bytes); (* (j5.ext.v1.key).foreign_key {package, entity} *)
-  f_optional : bool }.                (* proto3_optional *)
+  f_optional : bool;                  (* proto3_optional *)
+  f_inline : option inline_def }.     (* Some: the field's type is defined inline, nested in the message *)
+Notation mkF10 j t r q fl p te fi fo o := (mkF11 j t r q fl p te fi fo o None) (only parsing).
 (* the fields entity.go itself creates have no foreign key and are never optional *)
 Definition mkF j t r q fl p te fi : ofield := mkF10 j t r q fl p te fi None false.
 
@@ -171,8 +185,20 @@ Definition otype_of_item (i : ikind) : otype :=
   | IEnum n => TEnum [] n
   end.
 
+Definition of_sfield (s : sfield) : ofield :=
+  mkF10 (sf_name s) (otype_of_item (sf_kind s)) false (sf_required s) false false None None None (sf_optional s).
+
 Definition of_ufield (u : ufield) : ofield :=
   match uf_kind u with
+  | KInlineObject fs =>
+      mkF11 (uf_name u) (TNested (to_camel (uf_name u)) 0) false (uf_required u) false false None None None
+            (uf_optional u) (Some (mkInl 0 fs []))
+  | KInlineOneof fs =>
+      mkF11 (uf_name u) (TNested (to_camel (uf_name u)) 1) false (uf_required u) false false None None None
+            (uf_optional u) (Some (mkInl 1 fs []))
+  | KInlineEnum os =>
+      mkF11 (uf_name u) (TNested (to_camel (uf_name u)) 2) false (uf_required u) false false None None None
+            (uf_optional u) (Some (mkInl 2 [] os))
   | KExt tn k =>
       mkF10 (uf_name u) (TExt tn k) false (uf_required u) false false None None None (uf_optional u)
   | KArray i =>
@@ -471,7 +497,16 @@ Fixpoint ref_resolves (defs : list (bool * bytes)) (t : otype) : bool :=
   | TEnum p n => lookup true p n
   | TExt _ _ => true
   | TMap v => ref_resolves defs v
+  | TNested _ _ => true
   end.
+
+(* a field resolves when its type does and, for an inline object / oneof, the types of its own fields do *)
+Definition field_resolves (defs : list (bool * bytes)) (f : ofield) : bool :=
+  ref_resolves defs (f_type f)
+  && match f_inline f with
+     | Some il => forallb (fun s => ref_resolves defs (otype_of_item (sf_kind s))) (il_fields il)
+     | None => true
+     end.
 
 Definition fields_of (cs : list component) : list ofield :=
   flat_map (fun c => match c with
@@ -480,7 +515,7 @@ Definition fields_of (cs : list component) : list ofield :=
     end) cs.
 
 Definition closed (cs : list component) : bool :=
-  forallb (fun f => ref_resolves (defined cs) (f_type f)) (fields_of cs).
+  forallb (field_resolves (defined cs)) (fields_of cs).
 
 (* every user-declared field of the declaration *)
 Definition all_ufields (e : entity) : list ufield :=
@@ -561,14 +596,31 @@ Definition is_map_field (f : ofield) : bool := match f_type f with TMap _ => tru
 (* the entry messages buildProperty nests into the containing message, in field order *)
 Definition entry_names (fs : list ofield) : list bytes :=
   map (fun f => map_name (proto_name f)) (filter is_map_field fs).
+(* the types defined inline: their names, and - C++ scoping - the values of inline enums *)
+Definition inline_names (fs : list ofield) : list bytes :=
+  flat_map (fun f => match f_inline f, f_type f with
+    | Some il, TNested n _ =>
+        n :: (if il_kind il =? 2 then map fst (status_values (to_screaming_snake n ++ [95]) (il_options il)) else [])
+    | _, _ => []
+    end) fs.
 Definition fields_scope (is_oneof : bool) (fs : list ofield) : list bytes :=
   map proto_name fs
   ++ (if is_oneof then (if is_nil fs then [] else [bs "type"])
       else map (fun f => 95 :: proto_name f) (filter f_optional fs))
   ++ entry_names fs.
+(* the scopes of the inline objects / oneofs of a message *)
+Definition inline_scopes (fs : list ofield) : list (list bytes) :=
+  flat_map (fun f => match f_inline f with
+    | Some il => if il_kind il =? 2 then []
+                 else [map proto_name (map of_sfield (il_fields il))
+                       ++ (if il_kind il =? 1 then (if is_nil (il_fields il) then [] else [bs "type"])
+                           else map (fun s => 95 :: to_snake (sf_name s)) (filter sf_optional (il_fields il)))]
+    | None => []
+    end) fs.
 Definition msg_scopes (m : omsg) : list (list bytes) :=
-  (fields_scope (m_oneof m) (m_fields m) ++ map fst (m_nested m))
-  :: map (fun n => fields_scope false (snd n)) (m_nested m).
+  (fields_scope (m_oneof m) (m_fields m) ++ inline_names (m_fields m) ++ map fst (m_nested m))
+  :: inline_scopes (m_fields m)
+  ++ flat_map (fun n => (fields_scope false (snd n) ++ inline_names (snd n)) :: inline_scopes (snd n)) (m_nested m).
 Definition file_scope (file : N) (cs : list component) : list bytes :=
   flat_map (fun c => match c with
     | CMsg f m => if f =? file then [m_name m] else []
